@@ -386,6 +386,7 @@ struct GenOpt {
 	size_t max_if = 3;		/* at most this many -i formats (0: default parser only) */
 	bool allow_sed = true;
 	bool allow_many_if = true;
+	bool no_junk = false;		/* values always well-formed in the chosen format */
 	bool sed_families = false;	/* now and then two formats sharing a needle character, values parse under exactly one */
 	bool one_line = false;		/* no %n in output formats (sed mode: one output line per input line) */
 	bool sed_default_forms = false;	/* format-less values only in the forms the sed-mode finder looks for */	/* now and then 8..40 -i formats (needle tables are sized from the count) */
@@ -397,7 +398,7 @@ static inline Inv rand_inv(Rng &r, const GenOpt &go)
 	static const char *tools[] = {"dconv", "dconv", "dadd", "dround", "ddiff", "dgrep"};
 	iv.tool = go.tool ? go.tool : tools[r.below(6)];
 	iv.sed_default_forms = go.sed_default_forms;
-	iv.no_junk = go.sed_default_forms;
+	iv.no_junk = go.sed_default_forms || go.no_junk;
 	const std::string &t = iv.tool;
 	/* kind and input formats */
 	unsigned kk = (unsigned)r.below(100);
